@@ -338,7 +338,12 @@ func (r *rig) existingPin(c Case) *api.Pin {
 		return api.PinWithOpts(theCid, api.PinOptions{Name: "old", ReplicationFactorMin: -1, ReplicationFactorMax: -1})
 	}
 	var opts api.PinOptions
-	if c.Entry == "shortcut" || c.Entry == "remove" || c.Entry == "alert" {
+	if c.Entry == "raise-min" {
+		// the stored pin differs from the request in nothing but a lower
+		// minimum: the request is not "the same options again"
+		mn, mx := c.eff()
+		opts = api.PinOptions{Name: "same", ReplicationFactorMin: mn - 1, ReplicationFactorMax: mx, UserAllocations: r.peers(c.Prio)}
+	} else if c.Entry == "shortcut" || c.Entry == "remove" || c.Entry == "alert" {
 		// the stored pin carries exactly the options under test
 		mn, mx := c.eff()
 		// (user allocations are not persisted by the pinset: api.Pin.ProtoMarshal drops them)
@@ -406,9 +411,9 @@ func (r *rig) run(c Case) Obs {
 	r.shared.Reset()
 	var o Obs
 	switch c.Entry {
-	case "pin", "shortcut":
+	case "pin", "shortcut", "raise-min":
 		opts := api.PinOptions{Name: "new", ReplicationFactorMin: c.Min, ReplicationFactorMax: c.Max, UserAllocations: r.peers(c.Prio)}
-		if c.Entry == "shortcut" {
+		if c.Entry == "shortcut" || c.Entry == "raise-min" {
 			opts.Name = "same"
 		}
 		var res *api.Pin
